@@ -34,7 +34,7 @@ type cv struct {
 	i    int64
 	lb   bool // int: some value >= i
 	s    string
-	atom int  // string: content unknown, identity atom; alen bytes long
+	atom int // string: content unknown, identity atom; alen bytes long
 	alen int
 	tail bool // string: followed by a non-empty unknown rest
 	el   []cv
